@@ -30,6 +30,7 @@ def hsum(a, b=0, c=0):
 
 DECOYS = ["scale", "np", "g1", "a", "df", "lo", "I", "hsum", "b", ""]
 EXTRA_NUM = ["hsum(x, b=z)", "hsum(x, c=np.abs(z))", "`my var`", "np.abs(`my var`)", "I(x * `my var`)", "hsum(z, hsum(x, p))"]
+NAN_MAKERS = ["np.log(z)", "np.sqrt(-np.abs(z) - 1)"]
 
 
 @st.composite
@@ -45,7 +46,8 @@ def case_strategy(draw):
     if action == "pass":
         d = draw(rich.design(num_pool=tuple(rich.NUM_POINTWISE + EXTRA_NUM), cat_pool=tuple(rich.CAT_PLAIN), response=draw(st.sampled_from(["y", "np.abs(y)"]))))
     else:
-        d = draw(rich.design(num_pool=tuple(rich.NUM + EXTRA_NUM), cat_pool=tuple(a for a in rich.CAT if "levels=" not in a), response=draw(st.sampled_from(["y", "y", "np.abs(y)", "h", "g['g1']"]))))
+        # under 'error', also calls that make NaN out of numbers that are there: only missing values in the variables count
+        d = draw(rich.design(num_pool=tuple(rich.NUM + EXTRA_NUM + (NAN_MAKERS if action == "error" else [])), cat_pool=tuple(a for a in rich.CAT if "levels=" not in a), response=draw(st.sampled_from(["y", "y", "np.abs(y)", "h", "g['g1']"]))))
         if rich.bases(d["response"]) & rich.used_columns(dict(d, response=None)):
             d = dict(d, response="y")
             d["formula"] = rich.render(d)
